@@ -484,11 +484,35 @@ def main(ck):
     if bad:
         ck.notes.append("%d cases do not correspond" % len(bad))
     ck.cov["shared_state_scenarios_passed"] = s5_scenarios(ck, exe)
+    # ---- Strand and FairThreadPool: the Call-xor-Drop clause of C05 for these two executors is decided by the C07 / C08
+    # machinery (Properties_C05.v re-exports their theorems).  Their explorations are run here as well, and the verdicts
+    # that are about Call/Drop counts (not FIFO order, mutual exclusion, Wait or SoftStop semantics - those are C07's /
+    # C08's own subjects) count for C05, so that ./check C05 alone notices e.g. a Strand::Drop that loses a job.
+    from checks import c07, c08
+    cxd = re.compile(r"neither Called nor Dropped|finished \d+ times by Call|was Dropped although|Called \d+ times and Dropped|"
+                     r"a job never finished|submitted before the stop call and was not Called")
+    via = {}
+    for mod, pid in ((c07, "C07"), (c08, "C08")):
+        sub = runner.Check(pid, ck.tier, ck.seed)
+        mod.main(sub)
+        mine = [h for h in sub.hits if cxd.search(h["what"])]
+        for h in mine[:20]:
+            rp = dict(h.get("replay") or {}, via=pid)
+            ck.hits.append(dict(what="[%s exploration, Call-xor-Drop] %s" % (pid, h["what"]), key="via%s:%s" % (pid, h.get("key")),
+                                replay=rp))
+        via[pid] = dict(executions=sub.cov.get("evaluations", 0), call_drop_verdicts=len(mine),
+                        other_verdicts_left_to_that_check=len(sub.hits) - len(mine),
+                        broken_left_to_that_check=len(sub.broken))
+        ck.cov["evaluations"] += sub.cov.get("evaluations", 0)
+    ck.cov["strand_and_pool_call_xor_drop"] = via
 
 
 def replay(ck, path):
     d = json.load(open(path))
     rp = d.get("replay") or {}
+    if rp.get("via") in ("C07", "C08"):
+        from checks import c07, c08
+        return (c07 if rp["via"] == "C07" else c08).replay(ck, path)
     exe, b = L.build_harness(HARNESS, "c05")
     if rp.get("args"):
         r = subprocess.run([exe] + rp["args"], stdout=subprocess.PIPE, text=True, timeout=120)
